@@ -1,35 +1,43 @@
 /-
-  C06 for the grid algorithm (`GridModel.gridAlg` = `compute_grid_layout`, Model/Grid.lean): the named hypothesis
-  `EvalBlock.AlgAbsBlind` of the evaluator-level theorems is FALSE for grid, and the strongest true partial.
+  C06 for the grid algorithm (`GridModel.gridAlg` = `compute_grid_layout`, Model/Grid.lean), after the repair of the
+  finding `c06-abs-grid-implicit-tracks` ("absolutely positioned grid children create implicit tracks").
 
-  What grid does with absolutely positioned children:
-    (a) step 3, the grid size estimate, iterates over ALL box-generating children, absolutely positioned ones included:
-        the grid lines of an absolutely positioned child enter the implicit track counts, hence the number of tracks,
-        hence the container's size and the position of every in-flow item;
+  What grid does with absolutely positioned children since the repair:
+    (a) step 3, the grid size estimate, iterates over the box-generating children that are NOT absolutely positioned
+        (`get_child_styles_iter` filters `position != Absolute`): their lines create no implicit tracks;
     (b) step 4 places in-flow children only; the item list never contains an absolutely positioned child;
-    (c) the hidden/absolute loop resolves the child's lines against the final track counts (`into_track_vec_index`
-        may panic), lays the child out in that area; its contribution feeds `content_size` only;
+    (c) the hidden/absolute loop resolves the child's lines against the final track counts — a line outside the implicit
+        grid is `None` = `auto` (`try_into_track_vec_index`) — and lays the child out in that area; its contribution
+        feeds `content_size` only;
     (d) the `order` of hidden and absolutely positioned children counts both, after all in-flow items.
 
-  `grid_not_AbsBlind`: a 100-wide grid with `grid-auto-rows: 30px`, one in-flow 10×10 child and one absolutely
-  positioned child — with `grid-row-start: 5` the container is 150 high, with `auto` lines it is 30 high
-  (replayed on the real code: /tmp/w_gridq/replay, same numbers).
+  `old_witness_invisible`: the witness of the finding — a 100-wide grid with `grid-auto-rows: 30px`, one in-flow 10×10
+  child and one absolutely positioned child with `grid-row-start: 5` (container 150 high before the repair) — now
+  satisfies invisibility: the container is 30 high (`w_line`), and the two programs are `AbsEquiv` for every input.
 
-  `grid_AbsBlind_partial`: if the absolutely positioned children of the two lists have the same `grid_row` and
-  `grid_column` (`GridAbs.LinesAgree`; in particular if all have `auto` lines: `grid_AbsBlind_auto`), the two programs
-  are equal up to the calls/layouts addressed to those children and the outputs are equal up to `content_size`.
-  No "an in-flow child exists" condition is needed in this form: the statement compares two lists with absolutely
-  positioned children at the SAME indices, and an `auto`-line absolutely positioned child contributes span 1 to the
-  estimate whatever its style.  (Removing an absolutely positioned child is a different comparison: an absolutely
-  positioned child with `auto` lines that is the only box-generating child does reserve an implicit track.)
+  The named hypothesis `EvalBlock.AlgAbsBlind gridAlg` is STILL FALSE AS STATED (`grid_not_AbsBlind`), for one reason
+  only: (c) resolves the lines with checked i16 arithmetic.  An absolutely positioned child with
+  `grid-row: 32767 / span 2` overflows `OriginZeroLine + u16` (`overflow` in the model; "attempt to add with overflow" in a
+  debug build of the real code, replayed) and the container lays out nothing, while with `auto` lines it is 100×30.
+  What holds:
+    `grid_AbsBlind_upToPanic_partial`   UNCONDITIONALLY, the two programs are equal up to the calls/layouts addressed to
+                                absolutely positioned children, up to `content_size`, and up to panics (`GridRel.GRelW`);
+    `grid_AbsBlind_noPanic_partial`     hence `AbsEquiv` (= the conclusion of `AlgAbsBlind`) for every pair of runs that
+                                cannot panic, whatever the lines; decidable sufficient condition: `grid_AbsBlind_safe`
+                                (`EvalGrid.gridSafeB` on both lists);
+    `grid_AbsBlind_partial`     `AbsEquiv`, panics included, when the absolutely positioned boxes of the two lists have
+                                the same lines (the partial theorem of before the repair; `grid_AbsBlind_auto`);
+    `abs_invisible_all_trees_calm_partial`   the tree-level theorem for every pair of trees in which every grid container
+                                cannot panic or has only `auto`-line absolutely positioned children (`GridAbs.GridAbsCalm`;
+                                implied by `EvalGrid.GridCalm`, decidable `EvalGrid.gridCalmB`:
+                                `abs_invisible_all_trees_gridCalmB`, and by `GridAbs.GridAbsAuto`:
+                                `abs_invisible_all_trees_partial`).
 
-  `abs_invisible_all_trees_partial`: trees of leaves, block, flexbox and grid containers in which every absolutely
-  positioned child of a grid container has `auto` grid lines (`GridAbs.GridAbsAuto`, on both trees).
-
-  Helper lemmas: Lemmas/GridBox*.lean (the relational pass shared with C12), Lemmas/GridAbsBlind.lean,
-  Lemmas/GridAbsTrees.lean, Lemmas/GridBoxKernel.lean (kernel-evaluable form of the model).
+  Helper lemmas: Lemmas/GridBox*.lean (the relational pass shared with C12; `GridRel.PRelW` = related up to panics),
+  Lemmas/GridAbsBlind.lean, Lemmas/GridAbsTrees.lean, Lemmas/GridAbsCalm.lean, Lemmas/GridBoxKernel.lean
+  (kernel-evaluable form of the model), Lemmas/EvalGridSafe*.lean (absence of panics).
 -/
-import TaffyVerif.Lemmas.GridAbsTrees
+import TaffyVerif.Lemmas.GridAbsCalm
 import TaffyVerif.Lemmas.GridBoxKernel
 
 set_option linter.unusedSectionVars false
@@ -37,7 +45,7 @@ set_option linter.unusedSectionVars false
 namespace EvalGridAbs
 open Eval EvalBlock Gen.Facts GridModel GridAbs C06
 
-/-! ### the refutation -/
+/-! ### the witnesses -/
 
 /-- run a program against fixed child answers -/
 def runAns {α β : Type} (ans : Nat → LayoutInput α → LayoutOutput α) : ProgM α β → β
@@ -64,9 +72,13 @@ def wGrid : Style Rat :=
     display := .grid, size := ⟨.length 100, .auto⟩, grid := { autoRows := [⟨.length 30, .length 30⟩] } }
 /-- an in-flow 10×10 child -/
 def wInflow : Style Rat := { (Style.default : Style Rat) with display := .block, size := ⟨.length 10, .length 10⟩ }
-/-- an absolutely positioned child with `grid-row-start: 5` -/
+/-- an absolutely positioned child with `grid-row-start: 5` (the witness of the repaired finding) -/
 def wAbsLine : Style Rat :=
   { (Style.default : Style Rat) with display := .block, position := .absolute, grid := { row := ⟨.line 5, .auto⟩ } }
+/-- an absolutely positioned child with `grid-row: 32767 / span 2`: its end line does not fit an `i16` -/
+def wAbsOverflow : Style Rat :=
+  { (Style.default : Style Rat) with
+    display := .block, position := .absolute, grid := { row := ⟨.line 32767, .span 2⟩ } }
 /-- an absolutely positioned child with `auto` lines -/
 def wAbsAuto : Style Rat := { (Style.default : Style Rat) with display := .block, position := .absolute }
 def wInp : LayoutInput Rat :=
@@ -80,34 +92,72 @@ def wAns (_ : Nat) (inp : LayoutInput Rat) : LayoutOutput Rat :=
 theorem w_agree : AgreeA [wInflow, wAbsLine] [wInflow, wAbsAuto] :=
   ⟨Or.inr ⟨by decide, rfl⟩, Or.inl ⟨by decide, by decide⟩, trivial⟩
 
-/-- with `grid-row-start: 5` on the absolutely positioned child the container is 150 high … -/
-theorem w_line : (runAns wAns (gridAlg wGrid [wInflow, wAbsLine] wInp)).size = ⟨100, 150⟩ := by
+theorem w_agree_overflow : AgreeA [wInflow, wAbsOverflow] [wInflow, wAbsAuto] :=
+  ⟨Or.inr ⟨by decide, rfl⟩, Or.inl ⟨by decide, by decide⟩, trivial⟩
+
+/-- with `grid-row-start: 5` on the absolutely positioned child the container is 30 high (150 before the repair) … -/
+theorem w_line : (runAns wAns (gridAlg wGrid [wInflow, wAbsLine] wInp)).size = ⟨100, 30⟩ := by
   rw [← GridKernel.gridAlgK_eq]
   decide +kernel
 
-/-- … with `auto` lines it is 30 high -/
+/-- … as with `auto` lines -/
 theorem w_auto : (runAns wAns (gridAlg wGrid [wInflow, wAbsAuto] wInp)).size = ⟨100, 30⟩ := by
   rw [← GridKernel.gridAlgK_eq]
   decide +kernel
 
-/-- **grid_not_AbsBlind**: `compute_grid_layout` is NOT blind to its absolutely positioned children -/
+/-- with `grid-row: 32767 / span 2` the run panics (the model's `overflow`; `gridAlg` answers `LayoutOutput.hidden`) -/
+theorem w_overflow : (runAns wAns (gridAlg wGrid [wInflow, wAbsOverflow] wInp)).size = ⟨0, 0⟩ := by
+  rw [← GridKernel.gridAlgK_eq]
+  decide +kernel
+
+/-- **grid_not_AbsBlind**: `compute_grid_layout` is STILL not blind to its absolutely positioned children as stated:
+the checked i16 arithmetic on an absolutely positioned child's grid lines can panic -/
 theorem grid_not_AbsBlind : ¬ AlgAbsBlind (gridAlg : ContainerAlg Rat) := by
   intro h
-  have he := h wGrid [wInflow, wAbsLine] [wInflow, wAbsAuto] wInp w_agree
+  have he := h wGrid [wInflow, wAbsOverflow] [wInflow, wAbsAuto] wInp w_agree_overflow
   have hq := runAns_absEquiv he wAns wAns (fun _ _ _ => OutEqv.refl _)
   have hs := hq.1
-  rw [w_line, w_auto] at hs
+  rw [w_overflow, w_auto] at hs
   exact absurd hs (by decide)
 
-/-! ### the partial theorem -/
+/-! ### what holds -/
 
 section
 variable {α : Type} [Num α] [GridTracks.NumCast α] [FlexLine.NumX α] {C : Type}
 
+/-- **grid_AbsBlind_upToPanic_partial** (no hypothesis but `AgreeA`): for child-style lists that agree except at indices
+where both styles are absolutely positioned boxes, the two grid programs are equal up to the calls/`setLayout`s addressed
+to those children, up to `content_size` (of the answers fed back, of the layouts assigned, of the result), and up to
+panics: a run that has panicked is related to every run of the other side (`GridRel.PRelW`) -/
+theorem grid_AbsBlind_upToPanic_partial (style : Style α) (xs ys : List (Style α)) (inp : LayoutInput α)
+    (h : AgreeA xs ys) :
+    GridRel.GRelW (GridRel.World.absE (absIdx xs) True True : GridRel.World α) OutEqv
+      (computeGridLayoutE (GridStyle.ofStyle style) (xs.map GridChildStyle.ofStyle) inp)
+      (computeGridLayoutE (GridStyle.ofStyle style) (ys.map GridChildStyle.ofStyle) inp) :=
+  gridAlg_relW style xs ys inp h
+
+/-- **grid_AbsBlind_noPanic_partial**: the conclusion of `AlgAbsBlind`, for every pair of runs that cannot panic — no
+condition on the grid lines of the absolutely positioned children -/
+theorem grid_AbsBlind_noPanic_partial (style : Style α) (xs ys : List (Style α)) (inp : LayoutInput α)
+    (h : AgreeA xs ys)
+    (hx : EvalGrid.NoPanic (computeGridLayoutE (GridStyle.ofStyle style) (xs.map GridChildStyle.ofStyle) inp))
+    (hy : EvalGrid.NoPanic (computeGridLayoutE (GridStyle.ofStyle style) (ys.map GridChildStyle.ofStyle) inp)) :
+    AbsEquiv (absIdx xs) OutEqv (gridAlg style xs inp) (gridAlg style ys inp) :=
+  gridAlg_absEquiv_noErr style xs ys inp h ((noErr_iff_noPanic _).2 hx) ((noErr_iff_noPanic _).2 hy)
+
+/-- **grid_AbsBlind_safe**: … in particular when both lists pass the executable check `EvalGrid.gridSafeB` (no
+`auto-fill`/`auto-fit`; the setup, run once, does not overflow, and neither does the resolution of the absolutely
+positioned children's lines) -/
+theorem grid_AbsBlind_safe (style : Style α) (xs ys : List (Style α)) (inp : LayoutInput α) (h : AgreeA xs ys)
+    (hx : EvalGrid.gridSafeB style xs = true) (hy : EvalGrid.gridSafeB style ys = true) :
+    AbsEquiv (absIdx xs) OutEqv (gridAlg style xs inp) (gridAlg style ys inp) :=
+  grid_AbsBlind_noPanic_partial style xs ys inp h (EvalGrid.gridSafeB_sound style xs hx inp)
+    (EvalGrid.gridSafeB_sound style ys hy inp)
+
 /-- **grid_AbsBlind_partial**: for child-style lists that agree except at indices where both styles are absolutely
 positioned boxes (`AgreeA`) AND whose absolutely positioned boxes have the same `grid_row` / `grid_column`
 (`LinesAgree`), the two grid programs are equal up to the calls/`setLayout`s addressed to those children and up to
-`content_size` (of the answers fed back, of the layouts assigned, of the result) -/
+`content_size` (of the answers fed back, of the layouts assigned, of the result) — panics included -/
 theorem grid_AbsBlind_partial (style : Style α) (xs ys : List (Style α)) (inp : LayoutInput α) (h : AgreeA xs ys)
     (hl : LinesAgree xs ys) :
     AbsEquiv (absIdx xs) OutEqv (gridAlg style xs inp) (gridAlg style ys inp) :=
@@ -141,6 +191,10 @@ theorem grid_AbsBlind_auto (style : Style α) (xs ys : List (Style α)) (inp : L
 /-- the grid algorithm with the lines of absolutely positioned children reset is unconditionally blind -/
 theorem gridN_AbsBlind : AlgAbsBlind (gridAlgN : ContainerAlg α) := gridAlgN_AbsBlind
 
+/-- the grid algorithm wherever it cannot panic (with the lines of absolutely positioned children reset elsewhere) is
+unconditionally blind -/
+theorem gridC_AbsBlind : AlgAbsBlind (gridAlgC : ContainerAlg α) := gridAlgC_AbsBlind
+
 /-- the evaluator with all four modelled algorithms -/
 abbrev allAlgs : Algs α := EvalConcrete.algs FlexModel.computeFlexboxLayout gridAlg
 
@@ -149,20 +203,57 @@ theorem real_dispatch_grid (d : Display) (b : Bool) (h : Dispatch.select dispatc
   rw [C17.dispatch_eq] at h
   cases d <;> cases b <;> simp [C17.documented] at h ⊢
 
-/-- **abs_invisible_all_trees_partial**: two trees of leaves, block, flexbox and grid containers — nested in any way —
-the second obtained from the first by replacing absolutely positioned children (at any depth) by arbitrary other
-absolutely positioned children, in both of which every absolutely positioned child of a grid container has `auto`
-grid lines; states agreeing outside the absolutely positioned subtrees: outputs equal up to `content_size`, states
-again agreeing outside the absolutely positioned subtrees -/
+/-- **abs_invisible_all_trees_calm_partial**: two trees of leaves, block, flexbox and grid containers — nested in any
+way — the second obtained from the first by replacing absolutely positioned children (at any depth) by arbitrary other
+absolutely positioned children (any style, any grid lines, any subtree), in both of which every grid container (outside
+`display:none` subtrees) cannot panic or has only `auto`-line absolutely positioned children (`GridAbsCalm`); states
+agreeing outside the absolutely positioned subtrees: outputs equal up to `content_size`, states again agreeing outside the
+absolutely positioned subtrees -/
+theorem abs_invisible_all_trees_calm_partial (ci : CacheImpl α C) (R : C → C → Prop)
+    (hc : C06.CacheRespects ci R) (fuel : Nat) (tA tB : STree α) (nsA nsB : NS α C) (inp : LayoutInput α)
+    (hA : GridAbsCalm tA) (hB : GridAbsCalm tB) (hr : C06.AbsRel tA tB) (hs : C06.SimA R tA nsA nsB) :
+    C06.OutEqv (evalNode ci allAlgs fuel tA nsA inp).1 (evalNode ci allAlgs fuel tB nsB inp).1 ∧
+    C06.SimA R tA (evalNode ci allAlgs fuel tA nsA inp).2 (evalNode ci allAlgs fuel tB nsB inp).2 := by
+  unfold allAlgs evalNode
+  rw [eval_agree ci _ _ _ fuel tA nsA inp (GridAbsCalm_agree _ docSel_real _ tA hA),
+    eval_agree ci _ _ _ fuel tB nsB inp (GridAbsCalm_agree _ docSel_real _ tB hB)]
+  exact EvalFlexAbs.abs_invisible_flex_algs ci R hc _ gridAlgC_AbsBlind fuel tA tB nsA nsB inp hr hs
+
+/-- whole passes from freshly built trees: outputs equal up to `content_size`, and every node outside the absolutely
+positioned subtrees gets the same order, location, size, scrollbar size, border, padding and margin -/
+theorem abs_invisible_pass_all_trees_calm_partial (ci : CacheImpl α C) (R : C → C → Prop)
+    (hc : C06.CacheRespects ci R) (fuel : Nat) (tA tB : STree α) (inp : LayoutInput α)
+    (hA : GridAbsCalm tA) (hB : GridAbsCalm tB) (hr : C06.AbsRel tA tB) :
+    C06.OutEqv (evalNode ci allAlgs fuel tA (NS.init ci tA) inp).1 (evalNode ci allAlgs fuel tB (NS.init ci tB) inp).1 ∧
+    ∀ p, C06.OutsideAbs tA p →
+      C06.OptRel (fun x y => C06.LayEqv x.layout y.layout)
+        (C06.nsAt (evalNode ci allAlgs fuel tA (NS.init ci tA) inp).2 p)
+        (C06.nsAt (evalNode ci allAlgs fuel tB (NS.init ci tB) inp).2 p) := by
+  obtain ⟨h1, h2⟩ := abs_invisible_all_trees_calm_partial ci R hc fuel tA tB _ _ inp hA hB hr
+    (C06.SimA_init ci R hc tA tB hr)
+  exact ⟨h1, fun p hv => C06.OptRel.mono (fun _ _ h => h.1) _ _ (C06.SimA_at R p tA _ _ h2 hv)⟩
+
+/-- **abs_invisible_all_trees_gridCalmB**: … in particular for trees all of whose grid containers pass the executable
+check (`EvalGrid.gridCalmB`): any grid lines on the absolutely positioned children -/
+theorem abs_invisible_all_trees_gridCalmB (ci : CacheImpl α C) (R : C → C → Prop)
+    (hc : C06.CacheRespects ci R) (fuel : Nat) (tA tB : STree α) (nsA nsB : NS α C) (inp : LayoutInput α)
+    (hA : EvalGrid.gridCalmB tA = true) (hB : EvalGrid.gridCalmB tB = true) (hr : C06.AbsRel tA tB)
+    (hs : C06.SimA R tA nsA nsB) :
+    C06.OutEqv (evalNode ci allAlgs fuel tA nsA inp).1 (evalNode ci allAlgs fuel tB nsB inp).1 ∧
+    C06.SimA R tA (evalNode ci allAlgs fuel tA nsA inp).2 (evalNode ci allAlgs fuel tB nsB inp).2 :=
+  abs_invisible_all_trees_calm_partial ci R hc fuel tA tB nsA nsB inp
+    (GridCalm_GridAbsCalm tA (EvalGrid.gridCalmB_sound tA hA)) (GridCalm_GridAbsCalm tB (EvalGrid.gridCalmB_sound tB hB))
+    hr hs
+
+/-- **abs_invisible_all_trees_partial** (the tree theorem of before the repair, now a corollary): trees in both of which
+every absolutely positioned child of a grid container has `auto` grid lines -/
 theorem abs_invisible_all_trees_partial (ci : CacheImpl α C) (R : C → C → Prop)
     (hc : C06.CacheRespects ci R) (fuel : Nat) (tA tB : STree α) (nsA nsB : NS α C) (inp : LayoutInput α)
     (hA : GridAbsAuto tA) (hB : GridAbsAuto tB) (hr : C06.AbsRel tA tB) (hs : C06.SimA R tA nsA nsB) :
     C06.OutEqv (evalNode ci allAlgs fuel tA nsA inp).1 (evalNode ci allAlgs fuel tB nsB inp).1 ∧
-    C06.SimA R tA (evalNode ci allAlgs fuel tA nsA inp).2 (evalNode ci allAlgs fuel tB nsB inp).2 := by
-  unfold allAlgs evalNode
-  rw [eval_gridAlgN ci _ real_dispatch_grid _ fuel tA nsA inp hA,
-    eval_gridAlgN ci _ real_dispatch_grid _ fuel tB nsB inp hB]
-  exact EvalFlexAbs.abs_invisible_flex_algs ci R hc _ gridAlgN_AbsBlind fuel tA tB nsA nsB inp hr hs
+    C06.SimA R tA (evalNode ci allAlgs fuel tA nsA inp).2 (evalNode ci allAlgs fuel tB nsB inp).2 :=
+  abs_invisible_all_trees_calm_partial ci R hc fuel tA tB nsA nsB inp (GridAbsAuto_GridAbsCalm tA hA)
+    (GridAbsAuto_GridAbsCalm tB hB) hr hs
 
 /-- whole passes from freshly built trees: outputs equal up to `content_size`, and every node outside the absolutely
 positioned subtrees gets the same order, location, size, scrollbar size, border, padding and margin -/
@@ -173,12 +264,28 @@ theorem abs_invisible_pass_all_trees_partial (ci : CacheImpl α C) (R : C → C 
     ∀ p, C06.OutsideAbs tA p →
       C06.OptRel (fun x y => C06.LayEqv x.layout y.layout)
         (C06.nsAt (evalNode ci allAlgs fuel tA (NS.init ci tA) inp).2 p)
-        (C06.nsAt (evalNode ci allAlgs fuel tB (NS.init ci tB) inp).2 p) := by
-  obtain ⟨h1, h2⟩ := abs_invisible_all_trees_partial ci R hc fuel tA tB _ _ inp hA hB hr
-    (C06.SimA_init ci R hc tA tB hr)
-  exact ⟨h1, fun p hv => C06.OptRel.mono (fun _ _ h => h.1) _ _ (C06.SimA_at R p tA _ _ h2 hv)⟩
+        (C06.nsAt (evalNode ci allAlgs fuel tB (NS.init ci tB) inp).2 p) :=
+  abs_invisible_pass_all_trees_calm_partial ci R hc fuel tA tB inp (GridAbsAuto_GridAbsCalm tA hA)
+    (GridAbsAuto_GridAbsCalm tB hB) hr
 
 end
+
+/-! ### the witness of the repaired finding satisfies invisibility -/
+
+/-- neither list of the old witness can make the container panic (executable check) -/
+theorem w_safe : EvalGrid.gridSafeB wGrid [wInflow, wAbsLine] = true ∧
+    EvalGrid.gridSafeB wGrid [wInflow, wAbsAuto] = true := by
+  decide +kernel
+
+/-- **old_witness_invisible**: on the witness of `c06-abs-grid-implicit-tracks` (`grid-row-start: 5` on the absolutely
+positioned child of a `grid-auto-rows: 30px` grid) the two programs are now equivalent, for every input -/
+theorem old_witness_invisible (inp : LayoutInput Rat) :
+    AbsEquiv (absIdx [wInflow, wAbsLine]) OutEqv (gridAlg wGrid [wInflow, wAbsLine] inp)
+      (gridAlg wGrid [wInflow, wAbsAuto] inp) :=
+  grid_AbsBlind_safe wGrid _ _ inp w_agree w_safe.1 w_safe.2
+
+/-- the list with the overflowing line fails the executable check -/
+example : EvalGrid.gridSafeB wGrid [wInflow, wAbsOverflow] = false := by decide +kernel
 
 /-! ### non-vacuity (at `Rat`) -/
 
@@ -240,6 +347,44 @@ example (fuel : Nat) (inp : LayoutInput Rat) :
   (abs_invisible_pass_all_trees_partial noCache (fun _ _ => True) C06.noCache_respects fuel treeA treeB inp
     treeA_auto treeB_auto treeAB_rel).1
 
+/-- an absolutely positioned child with lines far outside the grid in both axes, and a subtree -/
+def absC : Style Rat :=
+  { (Style.default : Style Rat) with
+    display := .block, position := .absolute, size := ⟨.length 50, .auto⟩,
+    grid := { row := ⟨.line 5, .span 3⟩, column := ⟨.line (-7), .line 9⟩ } }
+
+/-- child-style lists that differ in the absolutely positioned child only — one with lines far outside the grid, one with
+`auto` lines —, both passing the executable check: non-vacuity of `grid_AbsBlind_safe` / `grid_AbsBlind_noPanic_partial` -/
+example (inp : LayoutInput Rat) :
+    AbsEquiv (absIdx [inflowA, absC, inflowB]) OutEqv (gridAlg gridRoot [inflowA, absC, inflowB] inp)
+      (gridAlg gridRoot [inflowA, absB, inflowB] inp) :=
+  grid_AbsBlind_safe gridRoot _ _ inp
+    ⟨Or.inr ⟨by decide, rfl⟩, Or.inl ⟨by decide, by decide⟩, Or.inr ⟨by decide, rfl⟩, trivial⟩
+    (by decide +kernel) (by decide +kernel)
+
+/-- … and these lists do NOT satisfy the side condition of the theorem of before the repair -/
+example : absAutoLinesB [inflowA, absC, inflowB] = false := by decide
+
+/-- a grid root with two in-flow leaves and the absolutely positioned child with explicit lines and a subtree -/
+def treeC : STree Rat :=
+  .node gridRoot none [.node inflowA (some (.fixed 20 10)) [],
+    .node absC none [.node inflowB (some (.fixed 5 5)) []], .node inflowB (some (.wrap 40 8)) []]
+
+theorem treeCB_rel : C06.AbsRel treeC treeB := by
+  simp only [treeC, treeB, C06.AbsRel, C06.AbsRelList, true_and, STree.style]
+  exact ⟨Or.inr ⟨by decide, trivial⟩, Or.inl ⟨by decide, by decide⟩, Or.inr ⟨by decide, trivial⟩, trivial⟩
+
+theorem treeC_calm : EvalGrid.gridCalmB treeC = true := by decide +kernel
+
+theorem treeB_calm : EvalGrid.gridCalmB treeB = true := by decide +kernel
+
+/-- the tree theorem applied to a pair of trees with explicit grid lines on the absolutely positioned child -/
+example (fuel : Nat) (inp : LayoutInput Rat) :
+    C06.OutEqv (evalNode noCache allAlgs fuel treeC (NS.init noCache treeC) inp).1
+      (evalNode noCache allAlgs fuel treeB (NS.init noCache treeB) inp).1 :=
+  (abs_invisible_all_trees_gridCalmB noCache (fun _ _ => True) C06.noCache_respects fuel treeC treeB _ _ inp
+    treeC_calm treeB_calm treeCB_rel (C06.SimA_init noCache _ C06.noCache_respects treeC treeB treeCB_rel)).1
+
 end examples
 
 end EvalGridAbs
@@ -247,11 +392,20 @@ end EvalGridAbs
 /-
   Obligations to audit (`#print axioms`; all depend on [propext, Classical.choice, Quot.sound] at most):
   EVALGRID_C06 = [
-    "EvalGridAbs.runAns_absEquiv", "EvalGridAbs.w_agree", "EvalGridAbs.w_line", "EvalGridAbs.w_auto",
-    "EvalGridAbs.grid_not_AbsBlind", "EvalGridAbs.grid_AbsBlind_partial", "EvalGridAbs.linesAgree_of_auto",
-    "EvalGridAbs.grid_AbsBlind_auto", "EvalGridAbs.gridN_AbsBlind", "EvalGridAbs.abs_invisible_all_trees_partial",
-    "EvalGridAbs.abs_invisible_pass_all_trees_partial", "EvalGridAbs.treeAB_rel", "EvalGridAbs.treeA_auto",
-    "EvalGridAbs.treeB_auto",
-    "GridAbs.gridAlg_absEquiv", "GridAbs.gridAlgN_AbsBlind", "GridAbs.eval_gridAlgN", "GridAbs.absAutoLinesB_iff",
+    "EvalGridAbs.runAns_absEquiv", "EvalGridAbs.w_agree", "EvalGridAbs.w_agree_overflow", "EvalGridAbs.w_line",
+    "EvalGridAbs.w_auto", "EvalGridAbs.w_overflow", "EvalGridAbs.grid_not_AbsBlind",
+    "EvalGridAbs.grid_AbsBlind_upToPanic_partial", "EvalGridAbs.grid_AbsBlind_noPanic_partial",
+    "EvalGridAbs.grid_AbsBlind_safe", "EvalGridAbs.grid_AbsBlind_partial", "EvalGridAbs.linesAgree_of_auto",
+    "EvalGridAbs.grid_AbsBlind_auto", "EvalGridAbs.gridN_AbsBlind", "EvalGridAbs.gridC_AbsBlind",
+    "EvalGridAbs.abs_invisible_all_trees_calm_partial", "EvalGridAbs.abs_invisible_pass_all_trees_calm_partial",
+    "EvalGridAbs.abs_invisible_all_trees_gridCalmB", "EvalGridAbs.abs_invisible_all_trees_partial",
+    "EvalGridAbs.abs_invisible_pass_all_trees_partial", "EvalGridAbs.w_safe", "EvalGridAbs.old_witness_invisible",
+    "EvalGridAbs.treeAB_rel", "EvalGridAbs.treeA_auto", "EvalGridAbs.treeB_auto", "EvalGridAbs.treeCB_rel",
+    "EvalGridAbs.treeC_calm", "EvalGridAbs.treeB_calm",
+    "GridAbs.gridAlg_relW", "GridAbs.gridAlg_absEquiv_noErr", "GridAbs.gridAlg_absEquiv",
+    "GridAbs.gridAlg_absEquiv_autoR", "GridAbs.gridAlg_absEquiv_autoL", "GridAbs.absStep_weak",
+    "GridAbs.gridAlgN_AbsBlind", "GridAbs.gridAlgC_AbsBlind", "GridAbs.eval_gridAlgN", "GridAbs.GridAbsCalm_agree",
+    "GridAbs.GridCalm_GridAbsCalm", "GridAbs.GridAbsAuto_GridAbsCalm", "GridAbs.absAutoLinesB_iff",
+    "GridAbs.noErr_iff_noPanic", "GridRel.computeGridLayoutE_relW", "GridRel.PRelW.bindCont", "GridRel.PRelW.to_PRel",
   ]
 -/
